@@ -734,7 +734,7 @@ var Check = &kernel.Check{
 	// inside a bubble: the default ping/close handlers and handleProtocolError
 	// call WriteControl with a deadline of now+1s; on the real clock a worker
 	// that is descheduled for a second under load would time the pong out
-	ID: "C14", Gen: gen, Run: run, Bubble: true,
+	ID: "C14", Gen: gen, Run: run, Bubble: true, ResetPools: true,
 	Simpler: map[string][]int64{"rseg": {0}, "rb": {0}, "readapi": {0}, "cut": {-1}, "limit": {0}, "role": {0, 1}},
 	Probes: func() map[string]*kernel.Plan {
 		mk := func(cfg map[string]int64, ops ...kernel.Op) *kernel.Plan {
